@@ -1,16 +1,16 @@
 import SqlProofs.BookkeepingAbsStep
 import SqlModel.Grouping.DelimSafe
 /-!
-# SqlProofs.BookkeepingAbsScript — a script of heap calls is the same script of pure calls at the paths of the addressed objects
+# SqlProofs.BookkeepingAbsScript — a script of heap operations is the same script of pure operations at the paths of the addressed objects
 
-`Script str root h ops pops`: running `ops` from `h`, the calls that return are, in order, `pops` — each with the path from `root` to the
-object it addresses in the heap on which it runs (calls that raise are dropped: they change nothing).
-`runPure t pops` folds the pure `Sql.groupTokens` over the tree `t` at those paths.
+`HScript str root h ops pops`: running `ops` (heap operations: `group_tokens` calls and `ttype` assignments) from `h`, the operations
+that return are, in order, `pops` — each as the pure operation it stands for, with the path from `root` to the object it addresses in the
+heap on which it runs (operations that raise are dropped: they change nothing).  `Sql.runPure t pops` folds them over the tree `t`.
 
-`runOps_abs`: from a heap satisfying `Inv` in which every group is reachable from `root`, for every script there is exactly one such
-`pops`, the final heap is well-formed, every group is still reachable, and the abstraction of `root` in the final heap is
-`runPure (abstraction of root in h) pops`.  `statement_history_abs`: the same for the heap the splitter builds from a token list, whose
-abstraction is `grp Statement (flatStatement toks)`.
+`runHOps_abs`: from a heap satisfying `Inv0` in which every group is reachable from `root`, for every script there is exactly one such
+`pops`, the final heap satisfies `Inv0`, every group is still reachable, and the abstraction of `root` in the final heap is
+`runPure (abstraction of root in h) pops`.  `runOps_abs`, `statement_history_abs`: scripts of `group_tokens` calls with non-empty slices
+keep the full invariant.
 -/
 namespace Sql.BK
 
@@ -19,7 +19,7 @@ def AllReach (h : Heap) (root : Nat) : Prop := ∀ j ks, (h.obj j).kids = some k
 
 /-- the objects whose child lists a call changes, and how -/
 theorem groupTokens_shape {h h' : Heap} {rank : Nat → Nat} {T : Nat → Text} {self g : Nat} (str : Heap → Nat → Text)
-    (hinv : Inv h rank T) {cls : Cls} {a b : Nat} {ie ext : Bool}
+    (hinv : Inv0 h rank T) {cls : Cls} {a b : Nat} {ie ext : Bool}
     (hcall : groupTokens str h self cls a b ie ext = .ok (h', g)) :
     ∃ ks ks' kg, (h.obj self).kids = some ks ∧ (h'.obj self).kids = some ks' ∧ (h'.obj g).kids = some kg ∧ g ≠ self ∧ g ∈ ks' ∧
       Same h h' self g ∧ (∀ k ∈ ks, k ∈ ks' ∨ k ∈ kg) ∧ (∀ kst, (h.obj g).kids = some kst → ∀ k ∈ kst, k ∈ kg) := by
@@ -112,7 +112,7 @@ theorem groupTokens_shape {h h' : Heap} {rank : Nat → Nat} {T : Nat → Text} 
 
 /-- reachability survives a call, and the group it returns is reachable -/
 theorem groupTokens_reach {h h' : Heap} {rank : Nat → Nat} {T : Nat → Text} {self g : Nat} (str : Heap → Nat → Text)
-    (hinv : Inv h rank T) {cls : Cls} {a b : Nat} {ie ext : Bool}
+    (hinv : Inv0 h rank T) {cls : Cls} {a b : Nat} {ie ext : Bool}
     (hcall : groupTokens str h self cls a b ie ext = .ok (h', g)) :
     (∀ r x, Reach h r x → Reach h' r x) ∧ Reach h' self g := by
   obtain ⟨ks, ks', kg, hk, hk', hkg, hgs, hgm, hsame, hcov, hold⟩ := groupTokens_shape str hinv hcall
@@ -138,7 +138,7 @@ theorem groupTokens_reach {h h' : Heap} {rank : Nat → Nat} {T : Nat → Text} 
         exact Reach.child (this.trans hk0) hkm
 
 theorem groupTokens_allReach {h h' : Heap} {rank : Nat → Nat} {T : Nat → Text} {self g root : Nat} (str : Heap → Nat → Text)
-    (hinv : Inv h rank T) {cls : Cls} {a b : Nat} {ie ext : Bool}
+    (hinv : Inv0 h rank T) {cls : Cls} {a b : Nat} {ie ext : Bool}
     (hcall : groupTokens str h self cls a b ie ext = .ok (h', g)) (hall : AllReach h root) : AllReach h' root := by
   obtain ⟨ks, ks', kg, hk, hk', hkg, hgs, hgm, hsame, hcov, hold⟩ := groupTokens_shape str hinv hcall
   obtain ⟨hpres, hg⟩ := groupTokens_reach str hinv hcall
@@ -151,58 +151,76 @@ theorem groupTokens_allReach {h h' : Heap} {rank : Nat → Nat} {T : Nat → Tex
     · have := (hsame j hjs hjg).1
       exact hpres _ _ (hall j ksj (this.symm.trans hkj))
 
+
+/-- `ttype` assignments do not change the graph -/
+theorem setTType_path {h h' : Heap} {self idx x : Nat} {tt : TType} (hcall : h.setTType self idx tt = .ok (h', x)) :
+    ∀ r p y, IsPath h r p y → IsPath h' r p y := by
+  obtain ⟨_, _, _, hall, _⟩ := setTType_same hcall
+  intro r p y hp
+  induction hp with
+  | nil r => exact .nil r
+  | cons hk hi _ ih => exact .cons (by rw [(hall _).2.1]; exact hk) hi ih
+
+theorem HOp.run_target {h h' : Heap} {g : Nat} (str : Heap → Nat → Text) {op : HOp} (hcall : op.run str h = .ok (h', g)) :
+    ∃ ks, (h.obj op.target).kids = some ks := by
+  cases op with
+  | group o =>
+    simp only [HOp.run, groupTokens] at hcall
+    simp only [HOp.target]
+    cases hk : (h.obj o.self).kids with
+    | none => rw [hk] at hcall; cases hcall
+    | some ks => exact ⟨ks, rfl⟩
+  | setType s idx tt =>
+    obtain ⟨_, ⟨ks, hk, _⟩, _⟩ := setTType_same hcall
+    exact ⟨ks, hk⟩
+
+theorem HOp.run_allReach {h h' : Heap} {rank : Nat → Nat} {T : Nat → Text} {g root : Nat} (str : Heap → Nat → Text)
+    (hinv : Inv0 h rank T) {op : HOp} (hcall : op.run str h = .ok (h', g)) (hall : AllReach h root) : AllReach h' root := by
+  cases op with
+  | group o => exact groupTokens_allReach str hinv hcall hall
+  | setType s idx tt =>
+    obtain ⟨_, _, _, hsame, _⟩ := setTType_same hcall
+    intro j ks hk
+    obtain ⟨p, hp⟩ := hall j ks (by rw [← (hsame j).2.1]; exact hk)
+    exact ⟨p, setTType_path hcall _ _ _ hp⟩
+
 /-! ## scripts -/
 
-/-- the pure call an `Op` stands for -/
-def Op.pure (op : Op) (ks : List Node) : Except PyErr (List Node) :=
-  Sql.groupTokens ks op.cls op.start op.stop op.includeEnd op.extend
+/-- the operations of a script that return, each as its pure operation with the path from `root` to the object it addresses in the heap
+on which it runs -/
+inductive HScript (str : Heap → Nat → Text) (root : Nat) : Heap → List HOp → List (List Nat × POp) → Prop
+  | nil (h : Heap) : HScript str root h [] []
+  | ok {h h' : Heap} {g : Nat} {op : HOp} {rest : List HOp} {p : List Nat} {pops : List (List Nat × POp)} :
+      IsPath h root p op.target → op.run str h = .ok (h', g) →
+      HScript str root h' rest pops → HScript str root h (op :: rest) ((p, op.toPure) :: pops)
+  | err {h : Heap} {e : PyErr} {op : HOp} {rest : List HOp} {pops : List (List Nat × POp)} :
+      op.run str h = .error e → HScript str root h rest pops → HScript str root h (op :: rest) pops
 
-/-- fold the pure calls over a tree, each at its path -/
-def runPure : Node → List (List Nat × Op) → Except PyErr Node
-  | t, [] => .ok t
-  | t, (p, op) :: rest =>
-    match Node.updAt op.pure p t with
-    | .ok t' => runPure t' rest
-    | .error e => .error e
-
-/-- the calls of a script that return, each with the path from `root` to the object it addresses in the heap on which it runs -/
-inductive Script (str : Heap → Nat → Text) (root : Nat) : Heap → List Op → List (List Nat × Op) → Prop
-  | nil (h : Heap) : Script str root h [] []
-  | ok {h h' : Heap} {g : Nat} {op : Op} {rest : List Op} {p : List Nat} {pops : List (List Nat × Op)} :
-      IsPath h root p op.self → groupTokens str h op.self op.cls op.start op.stop op.includeEnd op.extend = .ok (h', g) →
-      Script str root h' rest pops → Script str root h (op :: rest) ((p, op) :: pops)
-  | err {h : Heap} {e : PyErr} {op : Op} {rest : List Op} {pops : List (List Nat × Op)} :
-      groupTokens str h op.self op.cls op.start op.stop op.includeEnd op.extend = .error e →
-      Script str root h rest pops → Script str root h (op :: rest) pops
-
-/-- **every script**: the heap calls are the pure calls at the paths of the addressed objects -/
-theorem runOps_abs (tt : Nat → TType) (fuel root : Nat) : ∀ (ops : List Op) (h : Heap) (rank : Nat → Nat) (T : Nat → Text) (R : Nat)
+/-- **every script of heap operations** is the script of the pure operations at the paths of the addressed objects -/
+theorem runHOps_abs (fuel root : Nat) : ∀ (ops : List HOp) (h : Heap) (rank : Nat → Nat) (T : Nat → Text) (R : Nat)
     (A : Nat → Node),
-    Inv h rank T → (∀ i, rank i ≤ R) → R + ops.length < fuel →
-    (∀ op ∈ ops, op.start < op.stop + (if op.includeEnd then 1 else 0)) →
-    AllReach h root → IsAbs tt h A →
-    ∃ pops A', Script (fun hx i => strF hx fuel i) root h ops pops ∧
-      (∀ pops', Script (fun hx i => strF hx fuel i) root h ops pops' → pops' = pops) ∧
-      WF (runOps (fun hx i => strF hx fuel i) h ops).1 ∧
-      AllReach (runOps (fun hx i => strF hx fuel i) h ops).1 root ∧
-      IsAbs tt (runOps (fun hx i => strF hx fuel i) h ops).1 A' ∧
+    Inv0 h rank T → (∀ i, rank i ≤ R) → R + ops.length < fuel → AllReach h root → IsAbs h A →
+    ∃ pops A', HScript (fun hx i => strF hx fuel i) root h ops pops ∧
+      (∀ pops', HScript (fun hx i => strF hx fuel i) root h ops pops' → pops' = pops) ∧
+      WF0 (runHOps (fun hx i => strF hx fuel i) h ops).1 ∧
+      AllReach (runHOps (fun hx i => strF hx fuel i) h ops).1 root ∧
+      IsAbs (runHOps (fun hx i => strF hx fuel i) h ops).1 A' ∧
       runPure (A root) pops = .ok (A' root) := by
   intro ops
   induction ops with
   | nil =>
-    intro h rank T R A hinv _ _ _ hall hA
+    intro h rank T R A hinv _ _ hall hA
     refine ⟨[], A, .nil h, ?_, ⟨rank, T, hinv⟩, hall, hA, rfl⟩
     intro pops' hs
     cases hs; rfl
   | cons op rest ih =>
-    intro h rank T R A hinv hR hfuel hops hall hA
-    have hrest : ∀ o ∈ rest, o.start < o.stop + (if o.includeEnd then 1 else 0) := fun o ho => hops o (List.mem_cons_of_mem _ ho)
+    intro h rank T R A hinv hR hfuel hall hA
     simp only [List.length_cons] at hfuel
-    simp only [runOps]
-    cases hc : groupTokens (fun hx i => strF hx fuel i) h op.self op.cls op.start op.stop op.includeEnd op.extend with
+    simp only [runHOps]
+    cases hc : op.run (fun hx i => strF hx fuel i) h with
     | error e =>
       simp only
-      obtain ⟨pops, A', hs, hu, hw, hall', hA', hrun⟩ := ih h rank T R A hinv hR (by omega) hrest hall hA
+      obtain ⟨pops, A', hs, hu, hw, hall', hA', hrun⟩ := ih h rank T R A hinv hR (by omega) hall hA
       refine ⟨pops, A', .err hc hs, ?_, hw, hall', hA', hrun⟩
       intro pops' hs'
       cases hs' with
@@ -211,16 +229,14 @@ theorem runOps_abs (tt : Nat → TType) (fuel root : Nat) : ∀ (ops : List Op) 
     | ok r =>
       obtain ⟨h', g⟩ := r
       simp only
-      have hself := hR op.self
-      obtain ⟨rank', T', hinv', hb⟩ := groupTokens_inv fuel op.self op.cls op.start op.stop op.includeEnd op.extend g hinv
-        (by omega) (hops op List.mem_cons_self) hc
-      have hA1 : IsAbs tt h' (fun i => absF tt h' (rank' i + 1) i) := isAbs_absF hinv'
-      have hstep := groupTokens_abs (tt := tt) _ hinv hc hA hA1
-      obtain ⟨ks, _, _, hk, _⟩ := groupTokens_shape _ hinv hc
-      obtain ⟨p, hp⟩ := hall op.self ks hk
-      have hall1 := groupTokens_allReach _ hinv hc hall
-      obtain ⟨pops, A', hs, hu, hw, hall', hA', hrun⟩ := ih h' rank' T' (R + 1) _ hinv' (hb R hR) (by omega) hrest hall1 hA1
-      refine ⟨(p, op) :: pops, A', .ok hp hc hs, ?_, hw, hall', hA', ?_⟩
+      obtain ⟨rank', T', hinv', hb⟩ := HOp.run_inv0 fuel op g hinv (fun i => by have := hR i; omega) hc
+      have hA1 : IsAbs h' (fun i => absF h' (rank' i + 1) i) := isAbs_absF hinv'
+      obtain ⟨_, hpath⟩ := HOp.run_abs _ hinv hc hA hA1
+      obtain ⟨ks, hk⟩ := HOp.run_target _ hc
+      obtain ⟨p, hp⟩ := hall op.target ks hk
+      have hall1 := HOp.run_allReach _ hinv hc hall
+      obtain ⟨pops, A', hs, hu, hw, hall', hA', hrun⟩ := ih h' rank' T' (R + 1) _ hinv' (hb R hR) (by omega) hall1 hA1
+      refine ⟨(p, op.toPure) :: pops, A', .ok hp hc hs, ?_, hw, hall', hA', ?_⟩
       · intro pops' hs'
         cases hs' with
         | ok hp' hc' hs'' =>
@@ -230,10 +246,25 @@ theorem runOps_abs (tt : Nat → TType) (fuel root : Nat) : ∀ (ops : List Op) 
           subst e1
           rw [IsPath.unique' hinv hp' hp, hu _ hs'']
         | err hc' _ => rw [hc] at hc'; cases hc'
-      · obtain ⟨_, _, hpath⟩ := hstep
-        have hthis : Node.updAt op.pure p (A root) = .ok (absF tt h' (rank' root + 1) root) := hpath root p hp
+      · have hthis : Node.updAt op.toPure.run p (A root) = .ok (absF h' (rank' root + 1) root) := hpath root p hp
         simp only [runPure, hthis]
         exact hrun
+
+/-- scripts of `group_tokens` calls with non-empty slices: the full invariant is kept -/
+theorem runOps_abs (fuel root : Nat) (ops : List Op) (h : Heap) (rank : Nat → Nat) (T : Nat → Text) (R : Nat) (A : Nat → Node)
+    (hinv : Inv h rank T) (hR : ∀ i, rank i ≤ R) (hfuel : R + ops.length < fuel)
+    (hops : ∀ op ∈ ops, op.start < op.stop + (if op.includeEnd then 1 else 0)) (hall : AllReach h root) (hA : IsAbs h A) :
+    ∃ pops A', HScript (fun hx i => strF hx fuel i) root h (ops.map HOp.group) pops ∧
+      (∀ pops', HScript (fun hx i => strF hx fuel i) root h (ops.map HOp.group) pops' → pops' = pops) ∧
+      WF (runOps (fun hx i => strF hx fuel i) h ops).1 ∧
+      AllReach (runOps (fun hx i => strF hx fuel i) h ops).1 root ∧
+      IsAbs (runOps (fun hx i => strF hx fuel i) h ops).1 A' ∧
+      runPure (A root) pops = .ok (A' root) := by
+  have hw := runOps_wf fuel ops h rank T R hinv hR hfuel hops
+  rw [runOps_eq_runHOps] at hw ⊢
+  obtain ⟨pops, A', hs, hu, _, hall', hA', hrun⟩ := runHOps_abs fuel root (ops.map HOp.group) h rank T R A hinv.toInv0 hR
+    (by simpa using hfuel) hall hA
+  exact ⟨pops, A', hs, hu, hw, hall', hA', hrun⟩
 
 /-! ## the statement the splitter builds -/
 
@@ -246,15 +277,12 @@ theorem mkStatement_kids (vals : List Text) (g : Nat) (ks : List Nat) (hk : ((mk
     · rename_i h2; exact ⟨h2, (Option.some.inj hk).symm⟩
     · cases hk
 
-/-- the token types of the leaves of a statement -/
-def ttOf (toks : List Tok) (i : Nat) : TType := (toks.getD i default).tt
-
-theorem mkStatement_abs (toks : List Tok) {A : Nat → Node} (hA : IsAbs (ttOf toks) (mkStatement (toks.map (·.val))) A) :
+theorem mkStatementT_abs (toks : List Tok) {A : Nat → Node} (hA : IsAbs (mkStatementT toks) A) :
     A toks.length = .grp .Statement (flatStatement toks) := by
-  have hk : ((mkStatement (toks.map (·.val))).obj toks.length).kids = some (List.range toks.length) := by
-    simp [mkStatement]
-  have hc : ((mkStatement (toks.map (·.val))).obj toks.length).cls = .Statement := by
-    simp [mkStatement]
+  have hk : ((mkStatementT toks).obj toks.length).kids = some (List.range toks.length) := by
+    simp [mkStatementT, Heap.withTypes, mkStatement]
+  have hc : ((mkStatementT toks).obj toks.length).cls = .Statement := by
+    simp [mkStatementT, Heap.withTypes, mkStatement]
   rw [hA.grp _ _ hk, hc]
   congr 1
   simp only [flatStatement]
@@ -262,17 +290,21 @@ theorem mkStatement_abs (toks : List Tok) {A : Nat → Node} (hA : IsAbs (ttOf t
   · simp
   · intro i h1 h2
     simp only [List.length_map, List.length_range] at h1
-    have hl : ((mkStatement (toks.map (·.val))).obj i).kids = none := by
-      simp [mkStatement, h1]
-    have hv : ((mkStatement (toks.map (·.val))).obj i).value = toks[i].val := by
-      simp [mkStatement, h1, List.getD_eq_getElem?_getD]
+    have hl : ((mkStatementT toks).obj i).kids = none := by
+      simp [mkStatementT, Heap.withTypes, mkStatement, h1]
+    have hv : ((mkStatementT toks).obj i).value = toks[i].val := by
+      simp [mkStatementT, Heap.withTypes, mkStatement, h1, List.getD_eq_getElem?_getD]
+    have ht : ((mkStatementT toks).obj i).ttype = toks[i].tt := by
+      simp [mkStatementT, Heap.withTypes, List.getD_eq_getElem?_getD, h1]
     simp only [List.getElem_map, List.getElem_range]
-    rw [hA.leaf i hl, hv]
-    simp [ttOf, List.getD_eq_getElem?_getD, h1]
+    rw [hA.leaf i hl, hv, ht]
 
-theorem mkStatement_allReach (vals : List Text) : AllReach (mkStatement vals) vals.length := by
+theorem mkStatementT_allReach (toks : List Tok) : AllReach (mkStatementT toks) toks.length := by
   intro j ks hk
-  obtain ⟨rfl, _⟩ := mkStatement_kids vals j ks hk
+  have hk' : ((mkStatement (toks.map (·.val))).obj j).kids = some ks := by
+    simpa [mkStatementT, Heap.withTypes] using hk
+  obtain ⟨rfl, _⟩ := mkStatement_kids _ j ks hk'
+  simp only [List.length_map]
   exact Reach.refl _ _
 
 /-- **the whole life of a statement, in the pure model**: the heap built by the splitter from `toks`, regrouped by any script of
@@ -280,79 +312,17 @@ theorem mkStatement_allReach (vals : List Text) : AllReach (mkStatement vals) va
 same calls applied by the pure `Sql.groupTokens` at the paths of the objects they address. -/
 theorem statement_history_abs (toks : List Tok) (hne : toks ≠ []) (ops : List Op) (fuel : Nat) (hfuel : 1 + ops.length < fuel)
     (hops : ∀ op ∈ ops, op.start < op.stop + (if op.includeEnd then 1 else 0)) :
-    ∃ pops A', Script (fun hx i => strF hx fuel i) toks.length (mkStatement (toks.map (·.val))) ops pops ∧
-      (∀ pops', Script (fun hx i => strF hx fuel i) toks.length (mkStatement (toks.map (·.val))) ops pops' → pops' = pops) ∧
-      WF (runOps (fun hx i => strF hx fuel i) (mkStatement (toks.map (·.val))) ops).1 ∧
-      IsAbs (ttOf toks) (runOps (fun hx i => strF hx fuel i) (mkStatement (toks.map (·.val))) ops).1 A' ∧
+    ∃ pops A', HScript (fun hx i => strF hx fuel i) toks.length (mkStatementT toks) (ops.map HOp.group) pops ∧
+      (∀ pops', HScript (fun hx i => strF hx fuel i) toks.length (mkStatementT toks) (ops.map HOp.group) pops' → pops' = pops) ∧
+      WF (runOps (fun hx i => strF hx fuel i) (mkStatementT toks) ops).1 ∧
+      IsAbs (runOps (fun hx i => strF hx fuel i) (mkStatementT toks) ops).1 A' ∧
       runPure (.grp .Statement (flatStatement toks)) pops = .ok (A' toks.length) := by
-  have hvne : toks.map (·.val) ≠ [] := by intro he; exact hne (List.map_eq_nil_iff.mp he)
-  have hinv := mkStatement_inv (toks.map (·.val)) hvne
-  have hA0 : IsAbs (ttOf toks) (mkStatement (toks.map (·.val))) _ := isAbs_absF hinv
-  have hroot := mkStatement_abs toks hA0
-  have hall := mkStatement_allReach (toks.map (·.val))
-  simp only [List.length_map] at hall hinv
-  obtain ⟨pops, A', hs, hu, hw, _, hA', hrun⟩ := runOps_abs (ttOf toks) fuel toks.length ops _ _ _ 1 _ hinv
-    (by intro i; split <;> omega) hfuel hops hall hA0
+  have hinv := mkStatementT_inv toks hne
+  have hA0 : IsAbs (mkStatementT toks) _ := isAbs_absF hinv.toInv0
+  have hroot := mkStatementT_abs toks hA0
+  obtain ⟨pops, A', hs, hu, hw, _, hA', hrun⟩ := runOps_abs fuel toks.length ops _ _ _ 1 _ hinv
+    (by intro i; split <;> omega) hfuel hops (mkStatementT_allReach toks) hA0
   rw [hroot] at hrun
   exact ⟨pops, A', hs, hu, hw, hA', hrun⟩
-
-end Sql.BK
-
-/-! ## composing pure scripts (what a proof that a grouping pass is a script would use) -/
-
-namespace Sql.BK
-
-theorem runPure_append : ∀ (a b : List (List Nat × Op)) (t t1 t2 : Node), runPure t a = .ok t1 → runPure t1 b = .ok t2 →
-    runPure t (a ++ b) = .ok t2
-  | [], b, t, t1, t2, h1, h2 => by
-    simp only [runPure] at h1
-    injection h1 with h1
-    subst h1
-    exact h2
-  | (p, op) :: a, b, t, t1, t2, h1, h2 => by
-    simp only [runPure, List.cons_append] at h1 ⊢
-    cases hu : Node.updAt op.pure p t with
-    | error e => rw [hu] at h1; cases h1
-    | ok t' =>
-      rw [hu] at h1
-      simp only at h1 ⊢
-      exact runPure_append a b t' t1 t2 h1 h2
-
-/-- one pure call on the children of a group is a one-call script -/
-theorem runPure_single (c : Cls) (ks ks' : List Node) (op : Op) (h : op.pure ks = .ok ks') :
-    runPure (.grp c ks) [([], op)] = .ok (.grp c ks') := by
-  simp only [runPure, Node.updAt, h]
-
-theorem set_self_of_getElem? {α : Type} (l : List α) (i : Nat) (x : α) (h : l[i]? = some x) : l.set i x = l := by
-  apply List.ext_getElem?
-  intro j
-  rw [List.getElem?_set]
-  by_cases hij : i = j
-  · subst hij
-    simp only [if_true, (List.getElem?_eq_some_iff.mp h).1, h]
-  · simp only [hij, if_false]
-
-/-- a script on the `i`-th child is a script on the parent (paths prefixed by `i`) -/
-theorem runPure_lift (c : Cls) (i : Nat) : ∀ (pops : List (List Nat × Op)) (ks : List Node) (k k' : Node),
-    ks[i]? = some k → runPure k pops = .ok k' →
-    runPure (.grp c ks) (pops.map fun po => (i :: po.1, po.2)) = .ok (.grp c (ks.set i k'))
-  | [], ks, k, k', hi, h => by
-    simp only [runPure] at h
-    injection h with h
-    subst h
-    simp only [List.map_nil, runPure, set_self_of_getElem? ks i k hi]
-  | (p, op) :: pops, ks, k, k', hi, h => by
-    simp only [runPure] at h
-    cases hu : Node.updAt op.pure p k with
-    | error e => rw [hu] at h; cases h
-    | ok k1 =>
-      rw [hu] at h
-      simp only at h
-      have hi1 : (ks.set i k1)[i]? = some k1 := by
-        rw [List.getElem?_set]
-        simp only [if_true, (List.getElem?_eq_some_iff.mp hi).1]
-      have := runPure_lift c i pops (ks.set i k1) k1 k' hi1 h
-      simp only [List.map_cons, runPure, Node.updAt, hi, hu]
-      rw [this, List.set_set]
 
 end Sql.BK
